@@ -4,6 +4,7 @@ use crate::report::Shard;
 pub mod c01_04;
 pub mod c05;
 pub mod c06;
+pub mod c10;
 
 pub struct Args {
     pub prop: String,
@@ -36,6 +37,7 @@ pub fn run(args: &Args) -> Shard {
         "C01" | "C02" | "C03" | "C04" => c01_04::run(args, &mut sh),
         "C05" => c05::run(args, &mut sh),
         "C06" => c06::run(args, &mut sh),
+        "C10" => c10::run(args, &mut sh),
         "DBG" => { let mut a2 = Args { prop: "C03".into(), tier: args.tier.clone(), build: args.build.clone(), seed: args.seed, shard: 0, nshards: 1, replay: None, scale: 1000 }; a2.seed = args.seed; c01_04::debug_mismatch(&a2) }
         p => sh.inconclusive.push(format!("no check implemented for {}", p)),
     }
